@@ -125,7 +125,11 @@ def arr_matches(token, real, tol=1e-9):
     if a.shape != b.shape:
         return False
     sc = float(np.abs(b).max(initial=0.0))
-    return bool(np.all(np.isfinite(a))) and float(np.abs(a - b).max(initial=0.0)) <= tol * sc + 1e-300
+    ok = bool(np.all(np.isfinite(a))) and float(np.abs(a - b).max(initial=0.0)) <= tol * sc + 1e-300
+    if ok and sc > 0:
+        from harness.props.c15 import margin
+        margin(f"tie:gauss-layer-array:rel={tol:g}", float(np.abs(a - b).max(initial=0.0)) / (tol * sc))
+    return ok
 
 
 def nonfinite(a):
@@ -340,6 +344,9 @@ def run_gauss(ctx, cuqi, rs, thorough, oracle_point):
                     oracle_point(ctx, key, desc, BP.posterior, impl[1], np.array([float(v) for v in pv(ref.split(" ")[0][5:])]), rs, what="MAP (gauss chain)")
             continue
         mv = np.array([float(v) for v in pv(mmod[2:])]) if mmod.startswith("v:") else None
+        if impl[0] == "ok" and mv is not None and mv.shape == impl[1].shape:
+            from harness.props.c15 import margin
+            margin("tie:gauss-chain-MAP:tol=1e-08", float(np.abs(mv - impl[1]).max(initial=0.0)) / (1e-8 * (1 + float(np.abs(mv).max(initial=0.0)))))
         if impl[0] == "err" or mv is None or mv.shape != impl[1].shape or float(np.abs(mv - impl[1]).max(initial=0.0)) > 1e-8 * (1 + float(np.abs(mv).max(initial=0.0))):
             ctx.disagree(key, desc, mmod[:200], str(impl[1] if impl[0] == "err" else impl[1].tolist()), "MAP after the Gaussian's history: model (own compute_cov) vs implementation")
         if impl[0] == "ok" and ref.startswith("mean="):
@@ -368,6 +375,9 @@ def gauss_oracle(ctx, key, desc, g):
         dev = float(np.abs(G @ C - np.eye(len(G))).max())
     except Exception:
         return
+    if dev <= 1e-8 * max(1.0, float(np.linalg.cond(G))):
+        from harness.props.c15 import margin
+        margin("oracle:compute_cov-inverse-of-factor-precision:tol=1e-8*cond", dev / (1e-8 * max(1.0, float(np.linalg.cond(G)))))
     if dev > 1e-8 * max(1.0, float(np.linalg.cond(G))):
         ctx.fail(key, desc, "compute_cov() is the inverse of sqrtprec.T@sqrtprec (the precision logd uses)", {"G@C - I": dev, "C": C.tolist()},
                  "the covariance the direct routes read is not the inverse of the precision the density uses")
